@@ -136,10 +136,11 @@ def argmin_rule(f):
     # the selection is made among eligible rows only (dominated by the row_weight(i) == 1 test on the reduced matrix)
     elig = False
     for d in paths.dominating_conds(n, pm):
-        if d[0] == 'cond' and d[2]:
+        if d[0] == 'cond':
             e = hir.strip(d[1])
-            if e.get('k') == 'Binary' and e['op'] == 'Eq' and hir.lit_int(hir.strip(e['r'])) == 1 and hir.strip(e['l']).get('k') == 'MethodCall' and hir.strip(e['l'])['name'] == 'row_weight':
-                elig = True
+            if e.get('k') == 'Binary' and e['op'] in ('Eq', 'Ne') and hir.lit_int(hir.strip(e['r'])) == 1 and hir.strip(e['l']).get('k') == 'MethodCall' and hir.strip(e['l'])['name'] == 'row_weight':
+                if (e['op'] == 'Eq') == bool(d[2]):
+                    elig = True
     res.append(('among-extractable-rows', elig, 'only rows of the reduced matrix with a single 1 (extractable vertices) may be selected'))
     # the selected row is the one whose support becomes the solution set
     used = [x for x in hir.nodes(f['hir']) if x.get('k') == 'Index' and hir.strip(x['i']).get('k') == 'Tup' and hir.local(hir.strip(x['i'])['items'][0]) and hir.local(hir.strip(x['i'])['items'][0])[1] == idx_id]
@@ -238,32 +239,42 @@ def _run_own(ck):
     # ---- D4
     rk = 'cli::opt::OptArgs::run'
     rf = ck.fn(rk)
-    txt = hir.pp(rf['hir'])
-    chain = []
-    env = {}
-    for s in hir.stmts_of(rf['hir']):
-        if s.get('k') == 'Let' and s['pat'].get('k') == 'Bind' and s.get('init') is not None:
-            env[s['pat']['name']] = s['init']
-    ok_parse = 'circ' in env and any(hir.callee(c) == 'circuit::Circuit::from_file' for c in hir.calls(env['circ'])) and 'self.input' in hir.pp(env['circ'])
-    ok_graph = 'g' in env and any(c.get('k') == 'MethodCall' and c['name'] == 'to_graph' and hir.local_name(c['recv']) == 'circ' for c in hir.calls(env['g']))
-    simp = [c for c in hir.calls(rf['hir']) if hir.callee(c) == 'cli::opt::OptMethod::simp']
-    ok_simp = len(simp) == 1 and hir.local_name(simp[0]['args'][0]) == 'g' and 'self.method' in hir.pp(simp[0]['recv'])
-    q = env.get('qasm')
-    ok_qasm = False
-    if q is not None:
-        names = []
-        e = hir.strip(q)
-        while e.get('k') == 'MethodCall':
-            names.append(e['name'])
-            e = hir.strip(e['recv'])
-        ok_qasm = names[0] == 'to_qasm' and 'to_circuit' in names and hir.local_name(e) == 'g'
-    printed = [a for t, a, _n in hir.format_calls(rf['hir']) if t == '{}\n' and a and hir.local_name(a[0]) == 'qasm']
-    written = [c for c in hir.calls(rf['hir']) if (hir.callee(c) or '').endswith('fs::write') and hir.local_name(c['args'][1]) == 'qasm']
-    # statement order: simp before extraction
-    order_ok = txt.find('.simp(') < txt.find('to_circuit') if '.simp(' in txt and 'to_circuit' in txt else False
-    for name, ok in (('parses-the-input-file', ok_parse), ('translates-the-parsed-circuit', ok_graph), ('simplifies-that-graph-with-the-selected-method', ok_simp and order_ok),
-                     ('extracts-from-the-simplified-graph-and-prints-to_qasm', ok_qasm), ('prints-or-writes-that-string', len(printed) == 1 and len(written) == 1)):
-        ck.ob('R-PATH-cli', rk + '/' + name, ok, ck.site(rk), 'CLI wiring broken: %s' % name)
+    # name-independent data flow: what every local / expression is computed from (transitively)
+    from .. import hfacts
+    prov, of_expr = hfacts.provenance(rf)
+    FROM_FILE, TO_GRAPH, SIMP, TO_QASM = 'circuit::Circuit::from_file', '.to_graph', 'cli::opt::OptMethod::simp', '.to_qasm'
+    calls = hir.calls(rf['hir'])
+    tg = [c for c in calls if c.get('k') == 'MethodCall' and c['name'] in ('to_graph', 'to_graph_with_options')]
+    ok_parse = any(FROM_FILE in of_expr(c['recv']) and 'self.input' in of_expr(c['recv']) for c in tg) if tg else None
+    simp = [c for c in calls if hir.callee(c) == SIMP]
+    extr = [c for c in calls if c.get('k') == 'MethodCall' and c['name'] in ('to_circuit', 'extract')]
+    qasm = [c for c in calls if c.get('k') == 'MethodCall' and c['name'] == 'to_qasm']
+    # the graph local: the argument simp mutates; it must be computed by to_graph and be what the extractor consumes
+    ok_graph = ok_simp = ok_qasm = None
+    if simp and tg:
+        garg = hir.local(hir.strip(simp[0]['args'][0])) if simp[0]['args'] else None
+        ok_graph = bool(garg and TO_GRAPH in prov.get(garg[1], set()) and FROM_FILE in prov.get(garg[1], set()))
+        ok_simp = len(simp) == 1 and 'self.method' in of_expr(simp[0]['recv']) and bool(garg)
+        if extr and garg:
+            uses_same_graph = any(hir.local(x) and hir.local(x)[1] == garg[1] for c in extr for x in hir.nodes(c) if x.get('k') == 'Path')
+            # statement order: the simplifier runs before the extractor
+            st_ = hir.stmts_of(rf['hir'])
+
+            def top(n_):
+                for i_, s_ in enumerate(st_):
+                    if any(x is n_ for x in hir.nodes(s_)):
+                        return i_
+                return None
+            order = top(simp[0]) is not None and all(top(c) is not None and top(simp[0]) < top(c) for c in extr)
+            ok_simp = ok_simp and uses_same_graph and order
+    if qasm:
+        ok_qasm = any(('.to_circuit' in of_expr(c['recv']) or '.extract' in of_expr(c['recv'])) for c in qasm)
+    printed = [a for t, a, _n in hir.format_calls(rf['hir']) if t == '{}\n' and a and TO_QASM in of_expr(a[0])]
+    written = [c for c in calls if (hir.callee(c) or '').endswith('fs::write') and TO_QASM in of_expr(c['args'][1])]
+    ok_out = (len(printed) == 1 and len(written) == 1) if (printed or written) else None
+    for name, ok in (('parses-the-input-file', ok_parse), ('translates-the-parsed-circuit', ok_graph), ('simplifies-that-graph-with-the-selected-method', ok_simp),
+                     ('extracts-from-the-simplified-graph-and-prints-to_qasm', ok_qasm), ('prints-or-writes-that-string', ok_out)):
+        ck.ob3('R-PATH-cli', rk + '/' + name, ok, ck.site(rk), 'CLI wiring broken: %s' % name)
     # ---- D5
     for m, want in (('flow', 'no_gauss'), ('gflow', 'single_sln_set'), ('gflow_simple_gauss', 'simple_gauss')):
         fk = ck.fn(EX + m)
